@@ -2,7 +2,7 @@
    Directives: ExtractCommon.v (trusted base, DESIGN.md section 6). *)
 From Amgcl Require Import ExtractCommon.
 From Coq Require Import QArith Qcanon.
-From Amgcl Require Import Scalar QcInst Vec Crs Kernels MatOps Cheby Dist DistMsg.
+From Amgcl Require Import Scalar QcInst Vec Crs Kernels MatOps Cheby Dist DistMsg DistMove.
 Separate Extraction
   QcInst.QcS Scalar.is_zero Scalar.smax Scalar.smin
-  Vec Crs Kernels MatOps Cheby Dist DistMsg.
+  Vec Crs Kernels MatOps Cheby Dist DistMsg DistMove.
